@@ -29,9 +29,11 @@ META = dict(
     design_ref="4/C13")
 
 KINDS_Q = [("random", 300, 1), ("trend", 300, 1), ("flat", 300, 1), ("spike", 300, 1)]
-KINDS_T = KINDS_Q + [("random", 300, 2), ("spike", 300, 2), ("alternating", 300, 1), ("monotone", 300, 1),
-                     ("real", 300, 1), ("real", 300, 2), ("random", 300, 3, 2.0 ** 20), ("random", 300, 4, 2.0 ** -20)]
+KINDS_T = KINDS_Q + [("random", 300, 2), ("alternating", 300, 1), ("monotone", 300, 1),
+                     ("real", 300, 1), ("random", 300, 3, 2.0 ** 20), ("spike", 300, 4, 2.0 ** -20)]
 PREFIXES = [20, 45, 64, 100, 150, 199, 241, 300]
+LONG = ("random", 3400, 5)
+LONG_PREFIXES = [500, 3400]
 
 
 def stream_cfg(exempt, quirk, props, maxfed=5):
@@ -121,19 +123,18 @@ def record(entry, kw, sp, prefixes, c, c2, ps, stats, only_field=None):
 def plan(ctx, cat):
     rng = random.Random(ctx.seed)
     specs = ctx.pick(KINDS_Q, KINDS_T)
-    nvar = ctx.pick(3, 8)
+    nvar = ctx.pick(3, 6)
     items = []
     for e in cat:
         if not e["sequential"]:
             continue
         vs = D.variants(e, rng, nvar, sweep=not ctx.quick)
-        pre = [PREFIXES for _ in specs]
-        sp = list(specs)
+        items.append((e, vs, list(specs), [PREFIXES for _ in specs]))
+        # one long series: closed-form kernels whose powers overflow make EARLY values depend on the input length
+        items.append((e, vs[:ctx.pick(2, 4)], [LONG], [LONG_PREFIXES]))
         if not ctx.quick:
-            # every prefix length on two short series, default parameters are part of vs
-            sp += [("random", 120, 7), ("spike", 120, 7)]
-            pre += [list(range(1, 121)), list(range(1, 121))]
-        items.append((e, vs, sp, pre))
+            # every prefix length on two short series (defaults and one perturbed parameter set)
+            items.append((e, vs[:2], [("random", 120, 7), ("spike", 120, 7)], [list(range(1, 121)), list(range(1, 121))]))
     return items
 
 
@@ -198,7 +199,7 @@ def run(ctx):
     if silent:
         raise Machinery("no trace recorded for %s (the generic caller no longer fits)" % silent)
     ctx.log("%d traces from %d calls (%d skipped)" % (len(traces), calls, skipped))
-    verdicts, results, bad = judge(ctx, traces, parts=16)
+    verdicts, results, bad = judge(ctx, traces, parts=ctx.pick(16, 48))
     for t in traces:
         h = t["hdr"]
         if h["finite"] >= 30:
@@ -217,7 +218,7 @@ def run(ctx):
         "trace_events_checked_by_tlc": sum(r.generated for r in results), "rejected_traces": bad,
         "samples": samples,
         "rule": "one case = (indicator, field, parameter set, candle series): the sequential series on growing prefixes "
-                "(%s%s). Non-trivial = the longest run has >= 30 finite (non-NaN) entries and >= 2 runs succeeded; distinct "
+                "(%s%s; one long series of 3400 candles with prefixes 500 and 3400). Non-trivial = the longest run has >= 30 finite (non-NaN) entries and >= 2 runs succeeded; distinct "
                 "by (indicator, field, parameters, series)." % (PREFIXES, "" if ctx.quick else "; every length 1..120 on two series"),
     })
     ctx.assumptions += [
